@@ -2152,3 +2152,502 @@ func init() {
 	extend("C02", "(R22) = C14-R14: "+txt+".", func(c *Ctx, r *Report) { recheckAfterLockRule(c, r, "C02-R22", tbl) })
 	extend("C13", "(R17) = C14-R14: "+txt+".", func(c *Ctx, r *Report) { recheckAfterLockRule(c, r, "C13-R17", tbl) })
 }
+
+// ---- round 10 ------------------------------------------------------------------
+
+func init() {
+	extend("C02", "(R23) = C13-R14 (the bbolt backend hands out records built from a copy of the transaction's memory).", borrowRule(c13R14, "C13-R14", "C02-R23", 2, nil))
+	extend("C08", "(R15) = C13-R14 (records handed out by the bbolt backend do not alias transaction memory: their data stays what was stored); (R16) = C16-R3 (negative / oversized block sizes are errors in the container's block readers).",
+		borrowRule(c13R14, "C13-R14", "C08-R15", 2, nil), borrowRule(c16R3, "C16-R3", "C08-R16", 2, nil))
+	extend("C05", "(R16) = C01-R5 (ManageModules holds the management lock for its whole pass, like Start and Shutdown).", borrowRule(c01R5, "C01-R5", "C05-R16", 1, nil))
+	extend("C07", "(R20) = C05-R5 (Task.isActive: a cancelled task is never active).", borrowRule(c05R5, "C05-R5", "C07-R20", 1, func(s string) bool { return strings.Contains(s, "isActive") }))
+	extend("C10", "(R11) = C16-R6 + C16-R2 (skip releases consumed compartments in the container itself; Peek indexes compartments only below their number).",
+		borrowRule(c16R6, "C16-R6", "C10-R11", 1, nil), borrowRule(c16R2, "C16-R2", "C10-R11", 1, nil))
+}
+
+func init() {
+	const txt = "no unintended sharing (A20-A22): the address of a variable declared outside a loop is not stored per iteration; a deferred closure does not release (Unlock/Close/Done...) a captured variable that is assigned again after the defer statement; the result of append onto a field goes back into that field, not into another object or the return value"
+	extend("C15", "(R12) in modules "+txt+" - per-module status records are separate objects.", func(c *Ctx, r *Report) { aliasRule(c, r, "C15-R12", 3, []string{"modules"}, nil) })
+	extend("C13", "(R18) in database and api "+txt+" - the record that was locked is the one that is unlocked.", func(c *Ctx, r *Report) { aliasRule(c, r, "C13-R18", 3, []string{"database", "api"}, nil) })
+	extend("C11", "(R22) in database/query "+txt+" - a query built from another query's group does not share its condition array.", func(c *Ctx, r *Report) { aliasRule(c, r, "C11-R22", 1, []string{"database/query"}, nil) })
+	extend("C16", "(R18) in container "+txt+".", func(c *Ctx, r *Report) { aliasRule(c, r, "C16-R18", 3, []string{"container"}, nil) })
+	extend("C19", "(R21) in updater "+txt+".", func(c *Ctx, r *Report) { aliasRule(c, r, "C19-R21", 2, []string{"updater"}, nil) })
+}
+
+// c03R14: the hashmap query executor reads a record's flags with the record lock held.
+func c03R14(c *Ctx, r *Report) {
+	const rule = "C03-R14"
+	r.SetFloor(rule, 1)
+	fn := c.Func("database/storage/hashmap.(*HashMap).queryExecutor")
+	if fn == nil {
+		r.Undecided(rule, "database/storage/hashmap.(*HashMap).queryExecutor", "anchor function missing")
+		return
+	}
+	n := 0
+	var bad []string
+	isRecordLock := func(in ssa.Instruction) bool {
+		ci, ok := in.(*ssa.Call)
+		if !ok {
+			return false
+		}
+		n := calleeName(ci.Common())
+		return strings.HasSuffix(n, "record.Record.Lock") || strings.HasSuffix(n, "record.Base.Lock")
+	}
+	isRecordUnlock := func(in ssa.Instruction) bool {
+		ci, ok := in.(*ssa.Call)
+		if !ok {
+			return false
+		}
+		n := calleeName(ci.Common())
+		return strings.HasSuffix(n, "record.Record.Unlock") || strings.HasSuffix(n, "record.Base.Unlock")
+	}
+	_ = isRecordUnlock
+	eachInstr(fn, func(in ssa.Instruction) {
+		ci, ok := in.(*ssa.Call)
+		if !ok {
+			return
+		}
+		name := calleeName(ci.Common())
+		if !strings.HasSuffix(name, "record.Meta.CheckPermission") && !strings.HasSuffix(name, "record.Meta.CheckValidity") {
+			return
+		}
+		n++
+		if p := precededInIteration(fn, in, isRecordLock); p != nil {
+			bad = append(bad, fmt.Sprintf("%s at %s", name, c.Pos(in.Pos())))
+		}
+	})
+	if n == 0 {
+		r.Undecided(rule, fnKey(fn), "no permission / validity check found")
+		return
+	}
+	r.Check(len(bad) == 0, rule, fnKey(fn)+" / flags read under the record lock", fmt.Sprintf("%d permission / validity checks, each with the record lock held", n),
+		"the record's metadata is checked without the record lock ("+strings.Join(bad, "; ")+"): a writer that marks the record secret in the same critical section in which it writes the sensitive content is overtaken - the query lists the record with its new content")
+}
+
+// c04R19: allowed values are compared after conversion to the type the value arrived in (ConvertibleTo, not the stricter AssignableTo).
+func c04R19(c *Ctx, r *Report) {
+	const rule = "C04-R19"
+	r.SetFloor(rule, 1)
+	fn := c.Func("config.isAllowedPossibleValue")
+	if fn == nil {
+		r.Undecided(rule, "config.isAllowedPossibleValue", "anchor function missing")
+		return
+	}
+	conv := callsIn(fn, "reflect.Value.Convert")
+	if len(conv) == 0 {
+		r.Bad(rule, "config.isAllowedPossibleValue / conversion guarded by ConvertibleTo", "allowed values are no longer converted to the type of the given value: an int option loaded from JSON (float64) never matches its allowed values")
+		return
+	}
+	g := Guard{Name: "ConvertibleTo", Truthy: true, Match: func(b ssa.Value) bool {
+		_, ok := isCallTo(b, "reflect.Type.ConvertibleTo", "reflect.rtype.ConvertibleTo")
+		if ok {
+			return true
+		}
+		call, isCall := b.(*ssa.Call)
+		return isCall && call.Call.IsInvoke() && call.Call.Method.Name() == "ConvertibleTo"
+	}}
+	for i, ci := range conv {
+		p := ReachTargetAvoiding(fn, ci, []Guard{g}, nil)
+		r.Check(p == nil, rule, fmt.Sprintf("config.isAllowedPossibleValue / conversion #%d guarded by ConvertibleTo", i+1), "the conversion happens exactly when the types are convertible",
+			"the allowed value is converted under a different test than ConvertibleTo (e.g. AssignableTo): a valid value that arrives as float64 / int64 (config file, API) is rejected as not allowed", c.pathString(p)...)
+	}
+}
+
+// c09R15: each decoder of LoadAsFormat is reached only for its own format constant.
+func c09R15(c *Ctx, r *Report) {
+	const rule = "C09-R15"
+	r.SetFloor(rule, 3)
+	fn := c.Func("formats/dsd.LoadAsFormat")
+	if fn == nil || len(fn.Params) < 2 {
+		r.Undecided(rule, "formats/dsd.LoadAsFormat", "anchor function missing")
+		return
+	}
+	format := fn.Params[1]
+	table := []struct{ konst, callee string }{
+		{"JSON", "encoding/json.Unmarshal"}, {"YAML", "github.com/ghodss/yaml.Unmarshal"}, {"CBOR", "github.com/fxamacker/cbor/v2.Unmarshal"}, {"MsgPack", "github.com/vmihailenco/msgpack/v5.Unmarshal"},
+	}
+	n := 0
+	for _, t := range table {
+		k, ok := c.constVal("formats/dsd", t.konst)
+		if !ok {
+			r.Undecided(rule, "formats/dsd."+t.konst, "constant missing")
+			continue
+		}
+		g := Guard{Name: "format == " + t.konst, Truthy: true, Match: func(b ssa.Value) bool {
+			bo, ok := b.(*ssa.BinOp)
+			if !ok || bo.Op != token.EQL {
+				return false
+			}
+			kx, cx := constInt(bo.X)
+			ky, cy := constInt(bo.Y)
+			return (unwrapConv(bo.X) == ssa.Value(format) && cy && ky == k) || (unwrapConv(bo.Y) == ssa.Value(format) && cx && kx == k)
+		}}
+		for _, ci := range callsIn(fn, t.callee) {
+			n++
+			p := ReachTargetAvoiding(fn, ci, []Guard{g}, nil)
+			r.Check(p == nil, rule, "formats/dsd.LoadAsFormat / "+t.konst+" data is decoded by "+t.callee, "the decoder is reachable only across format == "+t.konst,
+				t.callee+" is reached for another format constant than "+t.konst+" (cases merged): data of that format is decoded by a parser for a different syntax - values change silently or valid data is rejected", c.pathString(p)...)
+		}
+	}
+	if n == 0 {
+		r.Undecided(rule, "formats/dsd.LoadAsFormat", "no decoder call found")
+	}
+}
+
+// c09R16: a dump never hands out the bytes of a buffer that goes back into a pool.
+func c09R16(c *Ctx, r *Report) {
+	const rule = "C09-R16"
+	r.SetFloor(rule, 1)
+	n := 0
+	var bad []string
+	for _, fn := range funcsOfPkgs(c, "formats/dsd") {
+		// buffers put (back) into a pool by this function (directly or deferred)
+		pooled := map[ssa.Value]bool{}
+		eachInstr(fn, func(in ssa.Instruction) {
+			ci, ok := in.(ssa.CallInstruction)
+			if !ok || !strings.HasSuffix(calleeName(ci.Common()), "sync.Pool.Put") {
+				return
+			}
+			for _, a := range callArgs(ci.Common()) {
+				for _, l := range c.Leaves(a) {
+					pooled[l] = true
+				}
+			}
+		})
+		eachInstr(fn, func(in ssa.Instruction) {
+			ret, ok := in.(*ssa.Return)
+			if !ok {
+				return
+			}
+			for _, v := range ret.Results {
+				if _, isSlice := v.Type().Underlying().(*types.Slice); !isSlice {
+					continue
+				}
+				n++
+				for _, l := range bytesLeaves(c, v, 0) {
+					call, ok := l.(*ssa.Call)
+					if !ok || !strings.HasSuffix(calleeName(&call.Call), "bytes.Buffer.Bytes") {
+						continue
+					}
+					for _, bl := range c.Leaves(callArgs(&call.Call)[0]) {
+						if pooled[bl] {
+							bad = append(bad, fmt.Sprintf("%s returns the bytes of a buffer it puts back into a pool (%s)", fnKey(fn), c.Pos(ret.Pos())))
+						}
+					}
+				}
+			}
+		})
+	}
+	if n == 0 {
+		r.Undecided(rule, "formats/dsd", "no function returning bytes found")
+		return
+	}
+	r.Check(len(bad) == 0, rule, "formats/dsd / dumped bytes are not shared with a pooled buffer", fmt.Sprintf("%d byte-slice results, none the backing array of a buffer that is put back into a pool", n),
+		strings.Join(bad, "; ")+": the next dump reuses the buffer and overwrites the bytes the first caller still holds")
+}
+
+// c11R23: Print strips the outer parentheses of the where clause only when it starts with one.
+func c11R23(c *Ctx, r *Report) {
+	const rule = "C11-R23"
+	r.SetFloor(rule, 1)
+	fn := c.Func("database/query.(*Query).Print")
+	if fn == nil {
+		r.Undecided(rule, "database/query.(*Query).Print", "anchor function missing")
+		return
+	}
+	g := callGuard("HasPrefix(where, \"(\")", true, "strings.HasPrefix")
+	n := 0
+	eachInstr(fn, func(in ssa.Instruction) {
+		sl, ok := in.(*ssa.Slice)
+		if !ok || sl.Low == nil || sl.High == nil {
+			return
+		}
+		if _, isTail := tailOffset(sl.High, sl.X); !isTail {
+			return
+		}
+		n++
+		p := ReachTargetAvoiding(fn, in, []Guard{g}, nil)
+		r.Check(p == nil, rule, "database/query.(*Query).Print / outer characters stripped only from a parenthesised clause", "the cut [1:len-1] is reachable only across HasPrefix(where, \"(\")",
+			"the first and last character of the where clause are cut off on a path that did not establish a leading parenthesis (e.g. for a clause that merely ends in one): `not (a and b)` prints as `ot (a and b` and does not parse back", c.pathString(p)...)
+	})
+	if n == 0 {
+		r.Trivial(rule, "database/query.(*Query).Print / outer characters stripped only from a parenthesised clause", "Print no longer strips anything")
+	}
+}
+
+// c12R18: the session map is only ever changed in place (under its lock): nobody replaces the map object.
+func c12R18(c *Ctx, r *Report) {
+	const rule = "C12-R18"
+	r.SetFloor(rule, 1)
+	var bad []string
+	n := 0
+	for _, fn := range funcsOfPkgs(c, "api") {
+		eachInstr(fn, func(in ssa.Instruction) {
+			if mu, ok := in.(*ssa.MapUpdate); ok && vpath(mu.Map) == "global:api.sessions" {
+				n++
+			}
+			if !isStoreToGlobal("api.sessions")(in) || fn.Name() == "init" {
+				return
+			}
+			bad = append(bad, fmt.Sprintf("%s replaces the session map at %s", fnKey(fn), c.Pos(in.Pos())))
+		})
+	}
+	if n == 0 {
+		r.Undecided(rule, "api.sessions", "no in-place update of the session map found")
+		return
+	}
+	r.Check(len(bad) == 0, rule, "api / the session map is changed in place only", fmt.Sprintf("%d in-place updates, no assignment of a new map", n),
+		strings.Join(bad, "; ")+": a copy that was filtered outside the lock overwrites what happened meanwhile - a session that was reset is put back and grants access again")
+}
+
+// c13R19: in parseAndOr the choice between Or(...) and And(...) is taken on one and the same variable everywhere.
+func c13R19(c *Ctx, r *Report, rule string) {
+	r.SetFloor(rule, 1)
+	fn := c.Func("database/query.parseAndOr")
+	if fn == nil {
+		r.Undecided(rule, "database/query.parseAndOr", "anchor function missing")
+		return
+	}
+	guards := map[string]int{}
+	n := 0
+	for _, ci := range callsIn(fn, "database/query.Or") {
+		n++
+		// the innermost If that dominates the call and decides between this arm and the And arm
+		b := ci.Block()
+		name := "?"
+		for d := b.Idom(); d != nil; d = d.Idom() {
+			if len(d.Instrs) == 0 {
+				continue
+			}
+			ifi, ok := d.Instrs[len(d.Instrs)-1].(*ssa.If)
+			if !ok {
+				continue
+			}
+			base, _ := peel(ifi.Cond)
+			name = exprStr(base)
+			break
+		}
+		guards[name]++
+	}
+	if n == 0 {
+		r.Undecided(rule, "database/query.parseAndOr", "no call of Or found")
+		return
+	}
+	var names []string
+	for k := range guards {
+		names = append(names, k)
+	}
+	sort.Strings(names)
+	r.Check(len(guards) == 1, rule, "database/query.parseAndOr / every list is closed on the same and/or decision", fmt.Sprintf("%d places build Or(...), all decided by %s", n, strings.Join(names, ", ")),
+		"the places that close a condition list decide between Or and And on different variables ("+strings.Join(names, ", ")+"): a multi-term `and` clause followed by orderby/limit/offset is compiled as OR and matches records that satisfy only one condition")
+}
+
+// c16R19: the read-only container operations do not change the container.
+func c16R19(c *Ctx, r *Report) {
+	const rule = "C16-R19"
+	ro := []string{"container.(*Container).WriteAllTo", "container.(*Container).Peek", "container.(*Container).PeekContainer", "container.(*Container).Length", "container.(*Container).HoldsData"}
+	r.SetFloor(rule, len(ro))
+	for _, name := range ro {
+		fn := c.Func(name)
+		if fn == nil {
+			r.Undecided(rule, name, "anchor function missing")
+			continue
+		}
+		recv := fn.Params[0]
+		var bad []string
+		eachInstr(fn, func(in ssa.Instruction) {
+			st, ok := in.(*ssa.Store)
+			if !ok {
+				return
+			}
+			// a store through the receiver: c.field = ..., c.compartments[i] = ...
+			addr := st.Addr
+			for d := 0; d < 4; d++ {
+				switch a := addr.(type) {
+				case *ssa.FieldAddr:
+					if a.X == ssa.Value(recv) {
+						bad = append(bad, c.Pos(in.Pos()))
+					}
+					addr = a.X
+					continue
+				case *ssa.IndexAddr:
+					if b, fr, ok := fieldLoad(a.X); ok && b == ssa.Value(recv) {
+						bad = append(bad, fmt.Sprintf("%s (element of %s)", c.Pos(in.Pos()), fr.Name))
+					}
+				}
+				break
+			}
+		})
+		r.Check(len(bad) == 0, rule, name+" / leaves the container unchanged", "no store through the receiver",
+			"a non-consuming operation writes to the container ("+strings.Join(bad, ", ")+"): the data it was only supposed to look at is consumed or altered")
+	}
+	// HoldsData: decided on the lengths, like Length
+	if fn := c.Func("container.(*Container).HoldsData"); fn != nil {
+		lenTest, nilTest := false, false
+		eachInstr(fn, func(in ssa.Instruction) {
+			bo, ok := in.(*ssa.BinOp)
+			if !ok {
+				return
+			}
+			for _, v := range []ssa.Value{bo.X, bo.Y} {
+				if call, ok := v.(*ssa.Call); ok && calleeName(&call.Call) == "builtin.len" {
+					if _, isIdx := call.Call.Args[0].(*ssa.UnOp); isIdx {
+						lenTest = true
+					}
+				}
+				if isNilConst(v) {
+					nilTest = true
+				}
+			}
+		})
+		r.Check(lenTest && !nilTest, rule, "container.(*Container).HoldsData / decided on compartment lengths", "compares len(compartment), never a compartment with nil",
+			"HoldsData is not decided on the compartments' lengths: an empty but non-nil compartment makes it report data while Length() is 0")
+	}
+}
+
+// c17R13: CopyFileAtomic / ReplaceFileAtomic hand the caller's options (or a complete copy) on to CreateAtomic.
+func c17R13(c *Ctx, r *Report) {
+	const rule = "C17-R13"
+	r.SetFloor(rule, 2)
+	for _, name := range []string{"utils.CopyFileAtomic", "utils.ReplaceFileAtomic"} {
+		fn := c.Func(name)
+		if fn == nil {
+			r.Undecided(rule, name, "anchor function missing")
+			continue
+		}
+		var opts *ssa.Parameter
+		for _, p := range fn.Params {
+			if p.Name() == "opts" || strings.HasSuffix(p.Type().String(), "AtomicFileOptions") {
+				opts = p
+			}
+		}
+		if opts == nil {
+			r.Undecided(rule, name, "options parameter not found")
+			continue
+		}
+		n := 0
+		for _, ci := range callsIn(fn, "utils.CreateAtomic", "utils.CopyFileAtomic") {
+			args := callArgs(ci.Common())
+			last := args[len(args)-1]
+			n++
+			ok := true
+			var why []string
+			for _, l := range c.Leaves(last) {
+				if l == ssa.Value(opts) {
+					continue
+				}
+				al, isAlloc := l.(*ssa.Alloc)
+				if !isAlloc {
+					ok = false
+					why = append(why, leafDesc(l))
+					continue
+				}
+				// a fresh options struct: allowed only as the replacement of a nil parameter, or when TempDir is carried over
+				carries := false
+				if al.Referrers() != nil {
+					for _, ref := range *al.Referrers() {
+						if fa, isFA := ref.(*ssa.FieldAddr); isFA && fieldName(fa.X.Type(), fa.Field) == "TempDir" {
+							carries = true
+						}
+					}
+				}
+				nilGuard := Guard{Name: "opts == nil", Truthy: false, Match: func(b ssa.Value) bool { return b == ssa.Value(opts) }}
+				if !carries && al.Block() != nil && len(al.Block().Instrs) > 0 && ReachTargetAvoiding(fn, al.Block().Instrs[0], []Guard{nilGuard}, nil) != nil {
+					ok = false
+					why = append(why, "a fresh options struct without the caller's TempDir")
+				}
+			}
+			r.Check(ok, rule, fmt.Sprintf("%s / options handed on #%d", name, n), "the callee receives the caller's options, or a fresh struct only in place of nil",
+				"the options passed on are not the caller's ("+strings.Join(why, ", ")+"): the requested temporary directory is lost and the half-written copy is staged next to the destination or in the system temp dir")
+		}
+		if n == 0 {
+			r.Undecided(rule, name, "no call that hands the options on")
+		}
+	}
+}
+
+// c18R9: the API bridge checks the joined URL against the root WITH its trailing separator.
+func c18R9(c *Ctx, r *Report) {
+	const rule = "C18-R9"
+	r.SetFloor(rule, 1)
+	fn := c.Func("api.callAPI")
+	if fn == nil {
+		r.Undecided(rule, "api.callAPI", "anchor function missing")
+		return
+	}
+	n := 0
+	for _, ci := range callsIn(fn, "strings.HasPrefix") {
+		args := ci.Common().Args
+		n++
+		s, isC := constStrVal(args[1])
+		r.Check(isC && strings.HasSuffix(s, "/"), rule, fmt.Sprintf("api.callAPI / scope prefix #%d ends with the separator", n), "the prefix is a constant ending in \"/\"",
+			"the bridged URL is checked against a prefix that does not end with the path separator ("+exprStr(args[1])+"): a sibling path that merely shares the root's name as a prefix (/api/v1-internal/...) passes the scope check", c.Pos(ci.Pos()))
+	}
+	if n == 0 {
+		r.Bad(rule, "api.callAPI / scope prefix ends with the separator", "callAPI no longer checks the joined URL against the API root")
+	}
+}
+
+// c19R22: Export hands out a copy of the version list.
+func c19R22(c *Ctx, r *Report) {
+	const rule = "C19-R22"
+	r.SetFloor(rule, 1)
+	fn := c.Func("updater.(*Resource).Export")
+	if fn == nil {
+		r.Undecided(rule, "updater.(*Resource).Export", "anchor function missing")
+		return
+	}
+	n := 0
+	eachInstr(fn, func(in ssa.Instruction) {
+		if !isFieldStore("updater.Resource", "Versions")(in) {
+			return
+		}
+		n++
+		fresh := true
+		var from []string
+		for _, l := range c.Leaves(in.(*ssa.Store).Val) {
+			if _, ok := l.(*ssa.MakeSlice); !ok {
+				fresh = false
+				from = append(from, leafDesc(l))
+			}
+		}
+		r.Check(fresh, rule, "updater.(*Resource).Export / exported version list is a fresh slice", "the exported Versions are allocated by Export",
+			"the exported resource shares the backing array of the resource's own version list ("+strings.Join(from, ", ")+"): a holder that sorts or filters its export in place reorders the registry's list, and the next selection / purge works on the wrong order", c.Pos(in.Pos()))
+	})
+	if n == 0 {
+		r.Undecided(rule, "updater.(*Resource).Export", "no store of the exported version list found")
+	}
+}
+
+func init() {
+	extend("C03", "(R14) the hashmap query executor checks a record's permission and validity only with the record lock held.", c03R14)
+	extend("C04", "(R19) isAllowedPossibleValue converts the allowed value exactly when the types are ConvertibleTo.", c04R19)
+	extend("C09", "(R15) in LoadAsFormat each decoder (json, yaml, cbor, msgpack) is reachable only across the comparison with its own format constant; (R16) no dump returns the bytes of a buffer that it puts back into a sync.Pool.", c09R15, c09R16)
+	extend("C11", "(R23) Query.Print cuts the outer characters of the where clause only behind HasPrefix(where, \"(\"); (R24) parseAndOr decides between Or and And on the same variable at every place that closes a condition list.", c11R23, func(c *Ctx, r *Report) { c13R19(c, r, "C11-R24") })
+	extend("C12", "(R18) the session map is only changed in place; no function assigns a new map to it.", c12R18)
+	extend("C13", "(R19) = C11-R24 (a where clause with `and` followed by another clause matches by AND for query, sub and qsub).", func(c *Ctx, r *Report) { c13R19(c, r, "C13-R19") })
+	extend("C16", "(R19) the read-only operations (WriteAllTo, Peek, PeekContainer, Length, HoldsData) do not store through the receiver, and HoldsData is decided on compartment lengths.", c16R19)
+	extend("C17", "(R13) CopyFileAtomic / ReplaceFileAtomic hand the caller's options on (a fresh struct only in place of nil).", c17R13)
+	extend("C18", "(R9) the API bridge compares the joined URL with a root prefix that ends in the separator.", c18R9)
+	extend("C19", "(R22) Resource.Export allocates the exported version list.", c19R22)
+}
+
+// bytesLeaves is Leaves looking through the re-slicing helpers of package bytes (they return a sub-slice of their argument).
+func bytesLeaves(c *Ctx, v ssa.Value, d int) []ssa.Value {
+	var out []ssa.Value
+	for _, l := range c.Leaves(v) {
+		if call, ok := l.(*ssa.Call); ok && d < 5 {
+			n := calleeName(&call.Call)
+			if strings.HasPrefix(n, "bytes.Trim") || n == "bytes.TrimSuffix" || n == "bytes.TrimPrefix" {
+				out = append(out, bytesLeaves(c, call.Call.Args[0], d+1)...)
+				continue
+			}
+		}
+		if sl, ok := l.(*ssa.Slice); ok && d < 5 {
+			out = append(out, bytesLeaves(c, sl.X, d+1)...)
+			continue
+		}
+		out = append(out, l)
+	}
+	return out
+}
